@@ -58,6 +58,12 @@ def check(run):
             # totals built from them must not depend on the layout either
             for k in rng.sample(keys, 2):
                 adocs[k]["t"]["body"] = adocs[k]["t"].get("body", []) + [world.rand_term(rng) for _ in range(rng.randrange(8, 30))]
+        if wi % 4 == 2:
+            # (every document has the field: its shortest length over the collection is then at least 1, however
+            # many sub-writers of a multi-process commit were given no document)
+            for k in keys:
+                if not adocs[k]["t"].get("body"):
+                    adocs[k]["t"]["body"] = [world.rand_term(rng)]
         dels = rng.sample(keys, rng.randrange(0, 3)) if rng.random() < 0.6 else []
         scores = {}
         for li, plan in enumerate(layouts(rng, keys, dels)):
@@ -68,9 +74,10 @@ def check(run):
                 # segment or kept apart while the commit's merge policy still runs over the older segments; the
                 # asynchronous writer)
                 cfg = {"storage": "file", "compound": True, "layout": li,
-                       **[{"frontend": "mp", "procs": 2, "batchsize": 2, "multisegment": True},
+                       # (three sub-writers for two or three batches: at least one of them gets no document)
+                       **[{"frontend": "mp", "procs": 3, "batchsize": 2, "multisegment": True},
                           {"frontend": "mp", "procs": 3, "batchsize": 1, "multisegment": False},
-                          {"frontend": "async"}][(wi // 2) % 3]}
+                          {"frontend": "async"}][(wi // 2 + 2) % 3]}
                 # ... and its last adding commit optimises (merges the older segments into the writer's own one)
                 last = max(i for i, st in enumerate(plan) if st[0] == "commit" and st[1])
                 plan = list(plan)
